@@ -5,7 +5,7 @@ CONSTANTS
   MaxDepth = 3
   MaxRoots = 1
   NCPU = 2
-  MemVals = {2, 3}
+  MemVals = {2}
   ThrVals = {}
   CpuCounts = {0, 1}
   CpuPcts = {100}
